@@ -14,8 +14,8 @@ import (
 // of an unassigned named result) makes every insertion land at offset 0 of the root value.
 func init() {
 	register(&Rule{
-		Name: "NOTFOUNDPOS",
-		Doc: "every return of a locator (a function of a generic package returning an int position and an error) whose error operand is the package's errNotFound sentinel returns a position that is derived from the read cursor (`p.Read`), not a constant: the position is where SetByPath inserts the missing element",
+		Name:     "NOTFOUNDPOS",
+		Doc:      "every return of a locator (a function of a generic package returning an int position and an error) whose error operand is the package's errNotFound sentinel returns a position that is derived from the read cursor (`p.Read`), not a constant: the position is where SetByPath inserts the missing element",
 		Configs:  "NP",
 		Floor:    map[string]int{"N": 6, "P": 6},
 		Controls: 1,
